@@ -36,6 +36,7 @@ type AttemptSpec struct {
 	Dur    int    `json:"dur"`              // simulated duration in poll ticks
 	Res    string `json:"res"`              // ok | err | skip | skipw
 	Chunks int    `json:"chunks,omitempty"` // output chunks written when buffering is on
+	Big    bool   `json:"big,omitempty"`    // the first chunk carries 70 KiB of padding (more than any sane internal buffer limit)
 	Cancel string `json:"cancel,omitempty"` // "", entry, exit: call cancel() there
 }
 
@@ -46,12 +47,22 @@ type Call struct {
 	Deps []int  `json:"deps,omitempty"` // dep: the dependencies
 	R    int    `json:"r,omitempty"`    // retries
 	Via  string `json:"via,omitempty"`  // "", "graph" (g.Task(id) supplies the *Task), "tm" (TaskMap.Get)
+	Alt  bool   `json:"alt,omitempty"`  // pass the ALTERNATE *Task object of this id (same ID, same behaviour, distinct object and lock)
+	Only int    `json:"only,omitempty"` // 0: the call is made on every graph; 1: on g0 only; 2: on g1 only
 }
 
 func (c Call) String() string {
 	switch c.Op {
 	case "add":
-		return fmt.Sprintf("AddTask(t%02d)", c.T)
+		s := fmt.Sprintf("AddTask(t%02d", c.T)
+		if c.Alt {
+			s += "'"
+		}
+		s += ")"
+		if c.Only != 0 {
+			s += fmt.Sprintf(" [g%d only]", c.Only-1)
+		}
+		return s
 	case "dep":
 		s := fmt.Sprintf("TaskDependsOn(t%02d", c.T)
 		for _, d := range c.Deps {
@@ -79,8 +90,9 @@ func (c Call) String() string {
 }
 
 type CancelSpec struct {
-	Kind string `json:"kind"`         // none | sleep | yield | before-run | after-run (in-task cancels live in AttemptSpec)
-	At   int    `json:"at,omitempty"` // ticks (sleep) or yields (yield)
+	Kind     string `json:"kind"`               // none | sleep | yield | before-run | after-run (in-task cancels live in AttemptSpec)
+	At       int    `json:"at,omitempty"`       // ticks (sleep) or yields (yield)
+	Deadline bool   `json:"deadline,omitempty"` // the context ends like a deadline/timeout context: Err() == context.DeadlineExceeded
 }
 
 type WriterSpec struct {
@@ -102,10 +114,16 @@ type Model struct {
 	Order     []int // ids in existence
 }
 
-func (sc *Scenario) Model() *Model {
+// Model returns the declared graph of g0; ModelFor that of graph g (calls can be per graph).
+func (sc *Scenario) Model() *Model { return sc.ModelFor(0) }
+
+func (sc *Scenario) ModelFor(g int) *Model {
 	m := &Model{Exists: make([]bool, sc.N), Deps: make([][]int, sc.N), Retries: make([]int, sc.N)}
 	hasEdge := make([]bool, sc.N)
 	for _, c := range sc.Build {
+		if c.Only != 0 && c.Only != g+1 {
+			continue
+		}
 		switch c.Op {
 		case "add":
 			if c.Via == "graph" && !m.Exists[c.T] {
@@ -452,6 +470,9 @@ func genAttempts(r *simrt.RNG, retries int, faulty bool, faultP int, buffer bool
 		}
 		if buffer {
 			a.Chunks = []int{0, 1, 2, 3, 5}[r.Intn(5)]
+			if a.Chunks > 0 && r.Intn(40) == 0 {
+				a.Big = true
+			}
 		}
 		if stall && k == 0 {
 			a.Dur = 40 + r.Intn(360)
@@ -566,6 +587,8 @@ func Generate(seed uint64, o GenOpts) *Scenario {
 		}
 	}
 
+	sc.Cancel.Deadline = r.Intn(3) == 0
+
 	// construction mode
 	sc.Mode = "canonical"
 	switch o.Prop {
@@ -583,6 +606,26 @@ func Generate(seed uint64, o GenOpts) *Scenario {
 	}
 	maxCalls := 30
 	sc.Build = buildCalls(r, sc.N, deps, retries, sc.Mode, maxCalls)
+	// Two graphs: sometimes one id is represented by two distinct *Task objects (same ID and
+	// behaviour). g1 is given the alternate object, g0 first the primary one and later, through a
+	// re-AddTask, the alternate one: the Task object both graphs end up holding is shared and must
+	// never execute twice at once.
+	if sc.Graphs == 2 && r.Intn(100) < 35 {
+		t := r.Intn(sc.N)
+		for i := range sc.Build {
+			if sc.Build[i].Op == "add" && sc.Build[i].T == t && sc.Build[i].Via == "" && r.Intn(4) != 0 {
+				sc.Build[i].Only = 1
+			}
+		}
+		pos := r.Intn(len(sc.Build) + 1)
+		sc.Build = append(sc.Build, Call{})
+		copy(sc.Build[pos+1:], sc.Build[pos:])
+		sc.Build[pos] = Call{Op: "add", T: t, Alt: true, Only: 2}
+		sc.Build = append(sc.Build, Call{Op: "add", T: t, Alt: true, Only: 1})
+		if r.Intn(3) == 0 {
+			sc.Build = append(sc.Build, Call{Op: "add", T: t, Alt: true, Only: 2})
+		}
+	}
 	return sc
 }
 
